@@ -26,7 +26,7 @@ THEOREMS = [
     'identifier_list_one_group (a0 , a1 , ... any number of items = ONE IdentifierList), comparison_chain (nests left), '
     'where_extent / where_extent_end / where_swallows_where, function_call, typed1_literal, typed2_extend, '
     'join_first_not_grouped',
-    'Inst/C13Fin.v: C13_where_fin (6 conditions x 9 followers x 3 nestings), C13_idlist_fin, C13_function_fin, '
+    'Inst/C13Fin.v: C13_where_fin (6 conditions x 11 followers x 3 nestings), C13_idlist_fin, C13_function_fin, '
     'C13_function_args_fin, C13_typed_fin, C13_comparison_fin (closed evaluation of the whole pipeline)']
 TRUSTED = ['hand-written models of group_where / group_functions / _group (tied by the parse correspondence after every pass)',
            'the accessors get_identifiers / get_parameters / get_cases / left / right are exercised on the implementation '
